@@ -640,6 +640,8 @@ def _process_internal_events_without_default_matchers(
                             _release_activation(
                                 state, flow_state, source_flow_instance_uid
                             )
+                        # Only an instance that has not ended yet handles the event
+                        was_done = _is_done_flow(flow_state)
                         _finish_flow(
                             state,
                             flow_state,
@@ -647,7 +649,8 @@ def _process_internal_events_without_default_matchers(
                             deactivate,
                         )
                         assert flow_state.loop_id
-                        handled_event_loops.add(flow_state.loop_id)
+                        if not was_done:
+                            handled_event_loops.add(flow_state.loop_id)
     elif event.name == InternalEvents.STOP_FLOW:
         if "flow_instance_uid" in event.arguments:
             flow_instance_uid = event.arguments["flow_instance_uid"]
@@ -679,6 +682,8 @@ def _process_internal_events_without_default_matchers(
                             _release_activation(
                                 state, flow_state, source_flow_instance_uid
                             )
+                        # Only an instance that has not ended yet handles the event
+                        was_done = _is_done_flow(flow_state)
                         _abort_flow(
                             state=state,
                             flow_state=flow_state,
@@ -686,7 +691,8 @@ def _process_internal_events_without_default_matchers(
                             deactivate_flow=deactivate,
                         )
                         assert flow_state.loop_id
-                        handled_event_loops.add(flow_state.loop_id)
+                        if not was_done:
+                            handled_event_loops.add(flow_state.loop_id)
         # TODO: Add support for all flow instances of same flow with "flow_id"
     # elif event.name == "ResumeFlow":
     #     pass
